@@ -3,8 +3,8 @@ judge observations with TLC: compositions the structured families do not contain
 generator is outside the specification, every observation is still judged by TLC against ESSem."""
 import json, random
 
-CHARS = [97, 98, 65, 115, 383]          # a b A s U+017F
-HAYCHARS = [97, 98, 65, 115, 383, 10]
+CHARS = [97, 98, 65, 115, 383, 233, 128512]          # a b A s U+017F e-acute U+1F600
+HAYCHARS = [97, 98, 65, 115, 383, 10, 0, 233, 128512]
 QUANTS = [(0, -1), (1, -1), (0, 1), (1, 1), (2, 2), (0, 2), (1, 2), (2, -1), (2, 3), (0, 0)]
 
 
